@@ -7,10 +7,13 @@ sys.path.insert(0, os.path.join(os.path.dirname(os.path.abspath(__file__)), ".."
 import facts, mir
 fs = facts.load(verbose=False)
 names = set()
+sigs = {}
 for cfg, d in fs.items():
     for it in d["items"]:
         if it["kind"] in ("fn", "assoc_fn"):
-            names.add(mir.short(it["path"]))
+            sh = mir.short(it["path"])
+            names.add(sh)
+            sigs[sh] = {"inputs": it.get("inputs"), "output": it.get("output"), "pub": bool(it.get("pub") and it.get("reachable"))}
 out = os.path.join(os.path.dirname(os.path.abspath(__file__)), "..", "rules", "known_fns.json")
-json.dump({"note": "normalisation table for sa/inline.py; not compared by any rule", "functions": sorted(names)}, open(out, "w"), indent=1)
+json.dump({"note": "normalisation table for sa/inline.py (which calls are spliced, which new function is a renamed old one); not compared by any rule", "functions": sorted(names), "signatures": {k: sigs[k] for k in sorted(sigs)}}, open(out, "w"), indent=1)
 print("wrote", out, len(names))
